@@ -7,6 +7,7 @@ import (
 	"os"
 	"os/exec"
 	"runtime"
+	"runtime/pprof"
 	"sort"
 	"strings"
 	"sync"
@@ -79,8 +80,14 @@ func cmdUnit(args []string) {
 	nshards := fs.Int("nshards", 1, "")
 	out := fs.String("out", "", "")
 	deadline := fs.Int64("deadline", 0, "unix seconds")
+	prof := fs.String("cpuprofile", "", "")
 	fs.Parse(args)
-	runtime.GOMAXPROCS(2)
+	runtime.GOMAXPROCS(1)
+	if *prof != "" {
+		f, _ := os.Create(*prof)
+		pprof.StartCPUProfile(f)
+		defer pprof.StopCPUProfile()
+	}
 	for _, sc := range scenarios(*prop, *tier) {
 		if sc.Name != *name {
 			continue
